@@ -333,16 +333,17 @@ fn show(path: &str) {
     let j: serde_json::Value = serde_json::from_str(&text).expect("json");
     let case = if j.get("case").is_some() { j["case"].clone() } else { j };
     let ev: Ev = serde_json::from_value(case).expect("case does not deserialise as an event");
+    c13::QUIET_CAUGHT_PANICS.store(true, std::sync::atomic::Ordering::Relaxed);
     println!("EVENT {ev:#?}");
     println!("reference msg = {:?}", ev.ref_msg());
     sinks::with_pipeline(|pl| {
         for (name, em) in [("all-signals/protobuf", &pl.full_proto), ("all-signals/json", &pl.full_json), ("logs/protobuf", &pl.logs_proto), ("logs/json", &pl.logs_json)] {
-            if let Err(f) = vcore::catch(|| ev.with_event(|e| em.emit(e))) {
+            if let Err(f) = c13::catch_emit(|| ev.with_event(|e| em.emit(e))) {
                 println!("otlp {name}: PANIC on the emitting thread: {}", f.msg);
             }
             em.blocking_flush(sinks::FLUSH);
         }
-        if let Err(f) = vcore::catch(|| ev.with_event(|e| pl.file.emit(e))) {
+        if let Err(f) = c13::catch_emit(|| ev.with_event(|e| pl.file.emit(e))) {
             println!("file: PANIC on the emitting thread: {}", f.msg);
         }
         pl.file.blocking_flush(sinks::FLUSH);
